@@ -40,6 +40,7 @@ MIN_REACH = {
     "script_executions": {"quick": 35, "thorough": 400},
     "programs_compiled": {"quick": 35, "thorough": 400},
     "cli_runs": {"quick": 4, "thorough": 40},
+    "single_scripts_run_after_the_crop_moved_on": {"quick": 2, "thorough": 20},
     "array_scripts_with_workers_inside_a_batch": {"quick": 3, "thorough": 30},
     "cli_runs_with_function_in_a_module_beside_the_crop": {"quick": 2, "thorough": 15},
     "partial_state_scripts": {"quick": 12, "thorough": 120},
@@ -254,6 +255,19 @@ def run_case(ctx, case):
     finally:
         os.chdir(cwd0)
     ctx.count("scripts_generated")
+    if case["mode"] == "single" and ids is None and len(intended) >= 2 and case["idx"] % 4 != 3:
+        # between generating the script and running it, one of the missing batches gets grown some other way (the job is
+        # resubmitted after a partial run, a colleague grows one by hand): a single-mode script for "whatever is
+        # missing" must then leave that batch alone
+        try:
+            with quiet():
+                xyzpy.Crop(name=NAME, parent_dir=tmp).grow(intended[0])
+            log_off = probe.read_log(logfile, log_off)[1]
+            pre = sorted(pre + [intended[0]])
+            intended = intended[1:]
+            ctx.count("single_scripts_run_after_the_crop_moved_on")
+        except Exception as e:
+            bad.append("growing a batch between generation and execution raised %r" % (e,))
     if pre:
         ctx.count("partial_state_scripts")
     spath = os.path.join(tmp, "job.sh")
